@@ -38,6 +38,22 @@ func debugMain(repo string, args []string) {
 			return
 		}
 		f.WriteTo(os.Stdout)
+	case "envelopes":
+		for _, e := range p.Envelopes() {
+			fmt.Println(e.Key, e.Side, p.ipos(e.Alloc), "sinks:", len(e.Sinks))
+			for _, f := range rpcFields {
+				if fs := e.Fields[f]; len(fs.Stores) > 0 {
+					fmt.Printf("    %-8s must=%v nil?=%v %s\n", f, fs.Must, fs.MaybeNil, fs.Origins)
+				}
+			}
+			for _, f := range hdrFields {
+				if e.HFields != nil {
+					if fs := e.HFields[f]; len(fs.Stores) > 0 {
+						fmt.Printf("    H.%-11s must=%v %s\n", f, fs.Must, fs.Origins)
+					}
+				}
+			}
+		}
 	case "origins":
 		// origins of every call argument and store value in a function
 		f := p.fnByKey(args[1])
